@@ -38,7 +38,16 @@ fn decode(data: &[u8]) -> (usize, Option<usize>, Vec<Op>) {
                 Op::WriteAll((0..n).map(|_| r.next(1) as u8).collect())
             }
             3 => Op::Flush,
-            4 | 5 => Op::Read(r.next(1) as usize % 64),
+            4 => Op::Read(r.next(1) as usize % 64),
+            // the top bit of the length byte selects `read_exact` (saved inputs stay valid histories)
+            5 => {
+                let b = r.next(1);
+                if b & 0x80 != 0 {
+                    Op::ReadExact(b as usize % 64)
+                } else {
+                    Op::Read(b as usize % 64)
+                }
+            }
             6 => Op::SeekStart(match r.next(1) {
                 255 => u64::MAX,
                 254 => 1 << 16,
